@@ -12,6 +12,9 @@ THEOREMS = ['Acc/AccFacts.v: C12_reference (for ALL name/qualifier/alias texts a
             'alias_none_general (any head, incl. function and parenthesis targets), C12_function_target',
             'C12_shape_plain / _quoted_as / _implicit / _function / C12_reference_ex: cur_parse of concrete texts yields exactly '
             'these shapes (closed vm_compute)',
+            'Inst/C12Fin.v: C12_pipeline_fin / C12_pipeline_fin_member (finite, bound in the statement: 11 contexts x 3 qualifiers x 4 '
+            'quotings x 5 alias forms through the whole model pipeline: an Identifier with exactly the written text on which the five '
+            'accessors return the written parts)',
             'C12_insert_implicit_alias_refuted (finding: `insert into n a (p1) ...` groups the alias with the column list)',
             'Inst/CaseInv.v + Lexer/NameWords.v: a non-dictionary word lexes as one Name token in every letter case']
 TRUSTED = ['the exact accessor models (Acc/Accessors.v) are tied to the code by the `acc` correspondence: every accessor on every '
